@@ -2094,7 +2094,7 @@ class CollocatedIntegratedOptimizationProblem(OptimizationProblem, metaclass=ABC
                                 interpolation_method,
                             )
                             # Vector variables are laid out component by component
-                            lower_bound = lower_bound.transpose().ravel()
+                            lower_bound = np.asarray(lower_bound).transpose().ravel()
                         elif isinstance(bound[0], np.ndarray):
                             lower_bound = (
                                 np.broadcast_to(bound[0], (n_times, variable_size))
@@ -2116,7 +2116,7 @@ class CollocatedIntegratedOptimizationProblem(OptimizationProblem, metaclass=ABC
                                 interpolation_method,
                             )
                             # Vector variables are laid out component by component
-                            upper_bound = upper_bound.transpose().ravel()
+                            upper_bound = np.asarray(upper_bound).transpose().ravel()
                         elif isinstance(bound[1], np.ndarray):
                             upper_bound = (
                                 np.broadcast_to(bound[1], (n_times, variable_size))
